@@ -237,3 +237,5 @@ m("C15-revert-D30-ndarray-position-refused-by-display-names-export", "C15", "imp
   "                    assert isinstance(value, (list, tuple, np.ndarray))", "                    assert isinstance(value, (list, tuple))")
 m("C07-revert-D31-updatenodeseg-keeps-callers-arrays", "C07", "actions/update_segmentation.py",
   "        self.pixels = tuple(np.array(p) for p in pixels)", "        self.pixels = pixels")
+m("C11-revert-D32-entries-with-the-same-old-value-not-gathered", "C11", "user_actions/user_update_segmentation.py",
+  "            groups.setdefault(old_value, []).append(pixels)", "            groups.setdefault(len(groups), []).append(pixels)")
